@@ -790,10 +790,10 @@ func (g *gen) faultAction(fx *fctx, kind string, scen int, depth int) []*Stmt {
 	nd := node
 	spec := func() int { return nd.First }
 	impl := func() int { return nd.Anchor }
-	if kind == "error2" {
+	if kind == "error2" { // level 2: the calling statement in the calling Lua function
 		cs := fx.callSite
 		spec = func() int { return cs.First }
-		g.kf["C17-2"] = true
+		impl = func() int { return cs.Anchor }
 	}
 	g.classes["fault:"+what] = true
 	var out []*Stmt
@@ -944,7 +944,27 @@ func (g *gen) defineChain(fx *fctx, pl chainPlan, i int, underPcall, nested bool
 		acts = append(acts, action{K: "fault", Fault: pl.fault, Scen: pl.scen})
 	}
 	bodyGen := func() {
-		f.Body = g.genSeq(cx, acts, 1)
+		// capture some variables of the enclosing functions (upvalues in order of first use)
+		var pre []*Stmt
+		if g.r.Chance(65) {
+			var cands []string
+			for p := fx; p != nil; p = p.parent {
+				for _, sc := range p.scopes {
+					for _, b := range sc {
+						if b.Name[0] != '(' && b.Val != nil {
+							cands = append(cands, b.Name)
+						}
+					}
+				}
+			}
+			for k := g.r.Intn(4); k > 0 && len(cands) > 0; k-- {
+				n := cands[g.r.Intn(len(cands))]
+				if kind, _ := cx.resolve(n); kind == "upval" {
+					pre = append(pre, &Stmt{K: "assign", Lhs: []*Expr{name(fmt.Sprintf("G%d", 1+g.r.Intn(3)))}, Exprs: []*Expr{name(n)}})
+				}
+			}
+		}
+		f.Body = append(pre, g.genSeq(cx, acts, 1)...)
 		f.Body = append(f.Body, &Stmt{K: "return", Exprs: []*Expr{num(1)}})
 	}
 	// The entering expression is created before the body so that the observations made inside
